@@ -36,6 +36,14 @@ FIXED = [
 ]
 
 FINDINGS = [
+ {"kind":"finding","property":"C09","id":"F-dynamic-type",
+  "what":"accepted process code in which a variable is assigned values of two different types on the two branches of an `if` reaches the evaluator's `SHOULDN'T GET HERE` panic when the branch taken gives it the type the checker did not record (the checker keeps only the last assignment's type)",
+  "where":"libvore/bytecode/semanticcheck.go checkIf/checkSet (one shared environment, last assignment wins); libvore/engine/execute.go executeBinaryExpr panics at the end of each type branch",
+  "class":"predicate on the INPUT: the generated program assigns x in the then-branch and in the else-branch expressions of different static types, AND the panic message starts with \"SHOULDN'T GET HERE\"; a panic of any other kind, or with equal branch types, is still a violation",
+  "cases":["set f to transform if match == 'a' or match == '7' then set x to true else set x to 0 end set r to x + 3 return 'v' + r end\nreplace all at least 1 any with f  on 'a'",
+           "set p to pattern at least 1 any begin if match == 'a' or match == '7' then set x to '' else set x to 0 end set r to x - '' return r == r end\nfind all p  on 'a'",
+           "set p to pattern at least 1 any begin if match == 'a' or match == '7' then set x to 0 else set x to true end set r to x or 3 return r == r end\nfind all p  on 'a'"],
+  "why_not_fixed":"a repair has to choose between making the checker flow-sensitive (reject or merge branch types) and defining coercions for every operator/type cell the table leaves undefined; neither is a few-line patch a maintainer would obviously accept"},
 ]
 
 def main():
